@@ -806,10 +806,13 @@ func (s *Server) readPQClientRequestHidden(hs *HandshakeState, b []byte) (int, e
 		rawLeaf, rawIntermediate, remoteEphemeralBytes []byte
 		c                                              *Certificate
 	)
-	bufCopy := make([]byte, len(b))
+	var bufCopy []byte
 
 	for _, cert := range certList {
-		// Copy buffer for processing
+		// Fresh copy of the message for every certificate: bufCopy is
+		// re-sliced while it is processed, so reusing the previous
+		// iteration's (shrunken) slice overruns its capacity.
+		bufCopy = make([]byte, len(b))
 		copy(bufCopy, b)
 
 		// Recreate duplex at each VM loop
